@@ -91,6 +91,9 @@ type Store struct {
 	OnWrite     []func(w *Write, v *View) // monitors
 	OnEvent     []func(e Event)           // watch stream
 	AfterCommit func(w *Write)            // crash injection: may panic(CrashSignal{})
+	// BeforeCommit is called when a write is about to change the store (after admission and no-op detection). A non-nil
+	// error is returned to the caller instead of committing; lose makes the write commit and the caller get a timeout.
+	BeforeCommit func(c *Call) (err error, lose bool)
 
 	Admission *Admission
 
